@@ -77,6 +77,20 @@ def family(rp):
     f.add("shadow-closed-loop-scope-str-into-float", meter + "def run(m: Meter, x: Str) -> Float =>\n    def y := 0.0\n    for x in 0 .. 3 do\n        y := y + 1.0\n    m.scale(x)\n", "reject")
     f.add("shadow-closed-function-scope-float-into-float", meter + "def x: Float := 1.5\n\ndef shout(x: Str) -> Str => x + \"!\"\n\ndef m := Meter()\nm.scale(x)\n", "accept")
     f.add("shadow-closed-loop-scope-float-into-float", meter + "def run(m: Meter, x: Float) -> Float =>\n    for x in [\"a\", \"b\"] do\n        print(x)\n    m.scale(x)\n", "accept")
+    vec = "class V(def x: Int)\n    def - (self, other: V) -> Int => self.x - other.x\n    def < (self, other: V) -> Bool => self.x < other.x\n"
+    f.add("operator-defined-by-class", vec + "def r: Int := V(3) - V(1)", "accept")
+    f.add("operator-not-defined-by-class", vec + "def r := V(3) + V(1)", "reject")
+    f.add("operator-comparison-defined", vec + "def r: Bool := V(3) < V(1)", "accept")
+    f.add("operator-comparison-not-defined", vec + "def r := V(3) > V(1)", "reject")
+    f.add("operator-right-operand-wrong-class", vec + "def r := V(3) - 1", "reject")
+    f.add("operator-in-list", "def r: Bool := 1 in [1, 2]", "accept")
+    f.add("operator-mod-on-str", "def r := \"a\" mod 2", "reject")
+    f.add("operator-pow-int", "def r: Int := 2 ^ 3", "accept")
+    f.add("operator-floor-div-int", "def r: Int := 7 // 2", "accept")
+    f.add("literal-real-into-int", "def r: Int := 2.5", "reject")
+    f.add("literal-int-into-str", "def r: Str := 2", "reject")
+    f.add("literal-str-into-int", "def r: Int := \"s\"", "reject")
+    f.add("literal-enum-into-int", "def r: Int := 2E3", "accept")
     f.add("nested-call-wrong-type", fn + "def r: Int := f(f(\"s\"))", "reject")
     f.add("call-in-branch-wrong-type", fn + "if True then\n    f(\"s\")\n", "reject")
     return f
@@ -365,6 +379,151 @@ def ob_shadow_mapping(run, mir, rp, fam, prefix="shadow-mapping"):
     run.samples.append({"obligation": ob.id, "renaming_sites": n, "items": [c[0] for c in cands]})
 
 
+OP_RS = ckern.GEN + "operation.rs"
+MAGIC = {"Add": "__add__", "Sub": "__sub__", "Mul": "__mul__", "Div": "__truediv__", "FDiv": "__floordiv__", "Pow": "__pow__", "Mod": "__mod__",
+         "Le": "__lt__", "Ge": "__gt__", "Leq": "__le__", "Geq": "__ge__", "Neq": "__ne__", "Eq": "__eq__", "In": "__contains__"}
+LITERAL = {"Real": "Float", "Int": "Int", "ENum": "Int", "Str": "Str"}
+
+
+def ob_operator_typing(run, mir, rp, fam):
+    """Operators are typed as a method of the left operand (documented dunder table); literals get their primitive type."""
+    ob = run.ob("operator-typing-table", "E2+z3", "gen_op: every arithmetic / comparison operator is typed through gen_magic with the documented "
+                "method name and (left, right) in source order (`a in b` asks b.__contains__(a)); number and string literals are given "
+                "their primitive type; gen_magic constrains the whole expression to left.method(left, right); gen_primitive and gen_range "
+                "add `expression >= declared primitive` constraints", ["gen_op", "gen_magic", "access", "gen_primitive", "gen_range"])
+    fn = e2.find1(mir, file=OP_RS, name="gen_op")
+    _rel, lay = ckern.node_enum()
+    kinds = list(MAGIC) + list(LITERAL)
+    got = {}
+    ex = Exec(mir, max_paths=5000)
+    for kind in kinds:
+        st = State()
+        vals = {}
+        for f in lay[kind] or []:
+            if f in ("left", "right", "expr"):
+                a_, _pp = ckern.mk_ast(f"{kind}.{f}", opq(f"{kind}.{f}.node", "Node"))
+                vals[f] = Ref(ex.new_cell(st, a_))
+            else:
+                vals[f] = opq(f"{kind}.{f}", "?")
+        node = ckern.mk_node(kind, vals)
+        ast, _ = ckern.mk_ast("ast", node)
+        astr = Ref(ex.new_cell(st, ast))
+        env, ctx, constr = ckern.refs(ex, st, "env", "ctx", "constr")
+        ends = e2.run_kernel(run, ex, fn, [astr, env, ctx, constr], st)
+        desc = set()
+        for p in ends:
+            if p.kind not in ("return", "loop_back"):
+                desc.add(("?", p.kind))
+                continue
+            s = p.state
+            gm = calls(p, "gen_magic")
+            gp = calls(p, "gen_primitive")
+            if kind in MAGIC:
+                if len(gm) != 1 or gp:
+                    desc.add(("?", f"{len(gm)} gen_magic"))
+                    continue
+                g = gm[0]
+                fun = g["args"][0].s if isinstance(g["args"][0], StrC) else "?"
+                order = tuple("left" if z3.eq(g["argvals"][i], ex.to_val(s, vals["left"])) else "right" if z3.eq(g["argvals"][i], ex.to_val(s, vals["right"])) else "?" for i in (2, 3))
+                okrest = z3.eq(g["argvals"][1], ex.to_val(s, astr)) and z3.eq(g["argvals"][4], ex.to_val(s, env)) and \
+                    z3.eq(ex.to_val(s, p.ret), ex.to_val(s, g["ret"]))
+                desc.add((fun, order, bool(okrest)))
+            else:
+                if p.kind == "loop_back":
+                    continue
+                if result_kind(p) == "Err":
+                    continue        # a failing sub-expression of an interpolated string
+                if len(gp) != 1 or gm:
+                    desc.add(("?", f"{len(gp)} gen_primitive"))
+                    continue
+                g = gp[0]
+                ty = g["args"][1].s if isinstance(g["args"][1], StrC) else "?"
+                desc.add((ty, bool(z3.eq(g["argvals"][0], ex.to_val(s, astr)) and z3.eq(g["argvals"][2], ex.to_val(s, env)))))
+        got[kind] = desc
+    nodes = ex.enum_variants("Node")
+    kv = z3.Int("node_kind")
+    okv = z3.BoolVal(True)
+    for kind in kinds:
+        if kind in MAGIC:
+            want = {(MAGIC[kind], ("right", "left") if kind == "In" else ("left", "right"), True)}
+        else:
+            want = {(LITERAL[kind], True)}
+        okv = z3.If(kv == nodes.index(kind), z3.BoolVal(got[kind] == want), okv)
+    dom = disj([kv == nodes.index(k) for k in kinds])
+    found, block = [], []
+    for _ in range(len(kinds) + 1):
+        r_, m_, dt, _s = e2.solve(ex, [dom, z3.Not(okv)] + block)
+        ob.solver_s += dt
+        ob.queries += 1
+        if r_ != z3.sat:
+            break
+        ki = m_.eval(kv).as_long()
+        found.append(nodes[ki])
+        block.append(kv != ki)
+    ob.reach = "sat"
+    run.samples.append({"obligation": ob.id, "table": {k: sorted(map(str, v)) for k, v in list(got.items())[:4]}})
+
+    # gen_magic / access / gen_primitive shapes
+    shape_claims = []
+    fnm = e2.find1(mir, file=OP_RS, name="gen_magic")
+    exm = Exec(mir, max_paths=5000, inline=[r"operation::access$", r"generate::operation::access$", r"^access$"])
+    st = State()
+    (a0, apos), (l0, lpos), (r0, rpos) = (ckern.mk_ast(n, opq(n + ".node", "Node")) for n in ("ast", "left", "right"))
+    ar, lr, rr = (Ref(exm.new_cell(st, x)) for x in (a0, l0, r0))
+    env, ev_ = ckern.sym_env(exm, st)
+    ctx, constr = ckern.refs(exm, st, "ctx", "constr")
+    fun = opq("fun", "&str")
+    ends = e2.run_kernel(run, exm, fnm, [fun, ar, lr, rr, env, ctx, constr], st)
+    n_ok = 0
+    for p in ends:
+        if result_kind(p) != "Ok":
+            continue
+        n_ok += 1
+        s = p.state
+        adds = calls(p, "ConstrBuilder::add")
+        ok = z3.BoolVal(False)
+        if len(adds) == 1:
+            a = adds[0]
+            frm = {k: [e_ for e_ in p.events if e_["name"].endswith("From::from") and z3.eq(e_["argvals"][0], exm.to_val(s, r_))] for k, r_ in (("ast", ar), ("left", lr), ("right", rr))}
+            cv = exm.read_ref(s, a["args"][3]) if isinstance(a["args"][3], Ref) else a["args"][3]
+            news = calls(p, "Expected::new")
+            outer = [nw for nw in news if z3.eq(exm.to_val(s, nw["ret"]), exm.to_val(s, cv))]
+            if frm["ast"] and frm["left"] and frm["right"] and outer:
+                acc = outer[0]["args"][1]
+                acc = exm.read_ref(s, acc) if isinstance(acc, Ref) else acc
+                if isinstance(acc, Agg) and acc.variant == "Access":
+                    ent, nm = acc.fields
+                    inner = [nw for nw in news if z3.eq(exm.to_val(s, nw["ret"]), exm.to_val(s, nm))]
+                    if inner:
+                        fnv = inner[0]["args"][1]
+                        fnv = exm.read_ref(s, fnv) if isinstance(fnv, Ref) else fnv
+                        if isinstance(fnv, Agg) and fnv.variant == "Function" and isinstance(fnv.fields[1], Seq) and len(fnv.fields[1].parts) == 2:
+                            a1, a2 = fnv.fields[1].parts[0][1], fnv.fields[1].parts[1][1]
+                            L = lambda k: disj([exm.to_val(s, e_["ret"]) == X for e_ in frm[k] for X in [None]]) if False else None
+                            is_from = lambda v, k: disj([exm.to_val(s, v) == exm.to_val(s, e_["ret"]) for e_ in frm[k]])
+                            sn = [e_ for e_ in p.events if e_["name"].endswith("From::from") and z3.eq(e_["argvals"][0], exm.to_val(s, fun))]
+                            ok = z3.And(is_from(ent, "left"), is_from(a1, "left"), is_from(a2, "right"),
+                                        disj([a["argvals"][2] == exm.to_val(s, e_["ret"]) for e_ in frm["ast"]]),
+                                        outer[0]["argvals"][0] == exm.to_val(s, lpos), inner[0]["argvals"][0] == exm.to_val(s, lpos),
+                                        disj([exm.to_val(s, fnv.fields[0]) == exm.to_val(s, e_["ret"]) for e_ in sn]) if sn else z3.BoolVal(False),
+                                        a["argvals"][4] == exm.to_val(s, env))
+        shape_claims.append(z3.Implies(conj(p.cond), ok))
+    if not n_ok:
+        raise Unsupported("gen_magic: no Ok path")
+
+    def replay(model, only=None):
+        return fam.as_replay("operator-typing:", only=only or ["operator-", "literal-", "initialiser-"])(model)
+    if found:
+        rep = replay({})
+        if rep and rep.get("reproduced"):
+            ob.violated(rep["role"], {"kinds": found, "table": {k: sorted(map(str, got[k])) for k in found}}, rep, rep["detail"])
+        else:
+            ob.inconclusive(f"solver reports operator kinds {found} as typed differently from the documented table "
+                            f"({ {k: sorted(map(str, got[k])) for k in found} }) but the replay programs get the required verdicts")
+        return
+    e2.prove(run, ob, exm, [], conj(shape_claims), {}, replay)
+
+
 def ob_return(run, mir, rp, fam):
     ob = run.ob("return-direction", "E2", "gen_stmt Return arm: with a declared return type the returned expression is "
                 "generated and constrained with parent = declared type, child = the expression; without one it is an error",
@@ -589,7 +748,7 @@ def run(run):
                "outside: that a violation is still caught in every nesting context (branch forking in ConstrBuilder); the accepted-exactly-when direction for whole programs")
     run.trusted += ["rustc nightly MIR dump", "mirsym MIR semantics", "z3"]
     run.bounds = {"paths": "all paths of each kernel with loops cut at their headers"}
-    for f in (ob_call_parameters, ob_method_parameters, ob_access_direction, ob_shadow_mapping, ob_return, ob_id_from_var, ob_fun_body, ob_unify_type):
+    for f in (ob_call_parameters, ob_method_parameters, ob_access_direction, ob_shadow_mapping, ob_operator_typing, ob_return, ob_id_from_var, ob_fun_body, ob_unify_type):
         try:
             f(run, mir, rp, fam)
         except Unsupported as e:
